@@ -304,3 +304,49 @@ def ancestor_cache_invalidation(ctx: Ctx) -> None:
             ok = bool(resets_self)
             (ctx.ok if ok else ctx.bad)(R, f, grows[0], 'self._length is reset after growing self' if ok else 'the tree grows but the cached _length of self is not reset', key=key)
     ctx.require(n >= 2, 'IndexLevelGO mutators')
+
+
+def descent_follows_key(ctx: Ctx) -> None:
+    R = 'I.descent-follows-key'
+    ctx.rule(R, 'a tree descent that is steered by the components of a key but steps into a child chosen by fixed position (`node.targets[-1]`) is only right when '
+             'the matched component sits at that position: wherever an IndexLevelGO mutator tests `node.index.__contains__(k)` and descends through a constant '
+             'child, the position of k in node.index is compared with the position of that child and a mismatch raises before anything is mutated', floor=1)
+    prog = ctx.prog
+    k = prog.cls('IndexLevelGO')
+    n = 0
+    for mname, f in k.methods.items():
+        for lp in walk_local(f.node):
+            if not isinstance(lp, ast.For):
+                continue
+            steps = [a for a in ast.walk(lp) if isinstance(a, ast.Assign) and isinstance(a.targets[0], ast.Name) and isinstance(a.value, ast.Subscript)
+                     and isinstance(a.value.value, ast.Attribute) and a.value.value.attr == 'targets' and isinstance(a.value.value.value, ast.Name)
+                     and a.value.value.value.id == a.targets[0].id and _const_index(a.value.slice) is not None]
+            tests = [c for c in ast.walk(lp) if (isinstance(c, ast.Call) and isinstance(c.func, ast.Attribute) and c.func.attr == '__contains__'
+                                                  and isinstance(c.func.value, ast.Attribute) and c.func.value.attr == 'index')
+                     or (isinstance(c, ast.Compare) and any(isinstance(o, (ast.In, ast.NotIn)) for o in c.ops) and norm(c.comparators[0]).endswith('.index'))]
+            if not steps or not tests:
+                continue
+            n += 1
+            node_var = steps[0].targets[0].id
+            # a raise guarded by a comparison of the key component's position in <node>.index with the child position / length
+            guarded = False
+            for i in ast.walk(lp):
+                if isinstance(i, ast.If) and any(isinstance(x, ast.Raise) for x in i.body):
+                    for c in ast.walk(i.test):
+                        if isinstance(c, ast.Compare) and any(isinstance(x, ast.Call) and isinstance(x.func, ast.Attribute) and x.func.attr in ('_loc_to_iloc', 'loc_to_iloc')
+                                                              and norm(x.func.value) == f'{node_var}.index' for x in ast.walk(c)):
+                            guarded = True
+            before_mutation = not any(isinstance(c, ast.Call) and isinstance(c.func, ast.Attribute) and c.func.attr in ('append', 'extend') for c in ast.walk(lp))
+            good = guarded and before_mutation
+            (ctx.ok if good else ctx.bad)(R, f, steps[0], f'descent through {norm(steps[0].value)} is checked against the position of the matched label' if good else
+                                          f'`{norm(steps[0])}` follows a fixed child although the key component may match a label at another position: the rest of the key is '
+                                          'attached to the wrong subtree (a label is stored under another outer label)', key=f'IndexLevelGO.{mname}')
+    ctx.require(n >= 1, 'key-steered descents in IndexLevelGO mutators')
+
+
+def _const_index(e: ast.expr) -> tp.Optional[int]:
+    if isinstance(e, ast.Constant) and isinstance(e.value, int):
+        return e.value
+    if isinstance(e, ast.UnaryOp) and isinstance(e.op, ast.USub) and isinstance(e.operand, ast.Constant) and isinstance(e.operand.value, int):
+        return -e.operand.value
+    return None
